@@ -13,9 +13,38 @@
 (***************************************************************************)
 EXTENDS Session, SequencesExt
 
-CONSTANTS Alphabet,   \* sequence of abstract messages (subset of AllMsgs), addressed by index
+CONSTANTS AlphaName,  \* which alphabet: "all" | "q" (C11 quick) | "t" (C11 thorough)
           MaxLen,     \* bound on the number of messages
           EmitTag     \* "" = do not print; otherwise the tag printed in front of each history
+
+\* The C11 alphabets: every message kind, every clause of the property has its trigger (wrong-state requests, failing
+\* logins of every kind, second logins, obo from non-root and root, forged sender, version change).
+AlphaQ ==
+  {MHi("A"), MHi("B"), MHi("bad")}
+  \cup {MLogin("basic", s) : s \in {"right", "wrong", "needscred", "suspended"}}
+  \cup {MLogin("token", s) : s \in {"right", "rightroot", "expired", "deleted", "nologin"}}
+  \cup {MLogin("reset", "known"), MLogin("unknown", "x")}
+  \cup {MAcc("new", "T", "basic", "none", "F", "none"), MAcc("new", "T", "basicR", "none", "F", "none"),
+        MAcc("self", "F", "basic", "none", "F", "none"), MAcc("self", "F", "basic", "tokR", "F", "none")}
+  \cup {MTop("sub", "me", "none", "none"), MTop("sub", "grp", "none", "none"), MTop("sub", "grp", "none", "valid"),
+        MTop("pub", "grp", "forged", "none"), MTop("pub", "grp", "forged", "valid"),
+        MTop("get", "me", "desc", "none"), MTop("get", "me", "desc", "valid"),
+        MTop("leave", "grp", "none", "none"), MTop("del", "grp", "msg", "none"), MTop("note", "grp", "read", "none")}
+AlphaT == AlphaQ
+  \cup {MHi("old"), MHi("empty")}
+  \cup {MLogin("basic", s) : s \in {"rightroot", "expired", "deleted", "malformed", "nouser"}}
+  \cup {MLogin("token", s) : s \in {"wrong", "suspended", "needscred", "malformed"}}
+  \cup {MLogin("reset", "malformed")}
+  \cup {MAcc("new", "F", "basic", "none", "F", "none"), MAcc("new", "F", "basic", "none", "T", "lvl"),
+        MAcc("other", "F", "basic", "none", "F", "none"), MAcc("self", "F", "basic", "tokW", "F", "none"),
+        MAcc("self", "F", "basic", "unknown", "F", "none")}
+  \cup {MTop("sub", "usr", "none", "none"), MTop("sub", "new", "none", "none"), MTop("sub", "sys", "none", "none"),
+        MTop("sub", "nogrp", "none", "none"), MTop("sub", "me", "none", "validroot"), MTop("leave", "me", "unsub", "none"),
+        MTop("leave", "grp", "none", "valid"), MTop("pub", "sys", "forged", "none"), MTop("pub", "grp", "forged", "bad"),
+        MTop("get", "grp", "data", "none"), MTop("set", "grp", "tags", "none"), MTop("set", "me", "desc", "lvl"),
+        MTop("del", "grp", "topic", "none"), MTop("note", "me", "kp", "none"), MTop("note", "grp", "read", "valid")}
+AlphaSet == CASE AlphaName = "q" -> AlphaQ [] AlphaName = "t" -> AlphaT [] OTHER -> AllMsgs
+Alphabet == SetToSeq(AlphaSet)   \* messages are addressed by index in the printed histories
 
 VARIABLES st, hist, viol
 vars == <<st, hist, viol>>
@@ -39,7 +68,8 @@ NoViolation == viol = {}
 Emit == EmitTag = "" \/ PrintT(<<EmitTag, hist>>)
 EmitFull == EmitTag = "" \/ Len(hist) < MaxLen \/ PrintT(<<EmitTag, hist>>)
 
-AlphabetAll == SetToSeq(AllMsgs)
+\* the alphabet in index order, printed once so that the recorder can resolve the indices
+EmitAlphabet == PrintT(<<"ALPHABET", Alphabet>>)
 \* sanity of the model itself: the state stays within its type
 TypeOK == /\ st.ver \in {"0", "A", "B"} /\ st.uid \in {"", "alice", "root", "new"} /\ st.lvl \in {"", "auth", "root"}
           /\ (st.uid = "") = (st.lvl = "")
